@@ -428,6 +428,8 @@ class StmtsMixin:
             self.inline_depth -= 1
         res = []
         for o in outs:
+            if o.kind == "raise" and o.st is st:
+                o.st = st.copy()        # keep the exceptional path apart from whatever continues on st
             o.st.cur = saved
             if o.kind == "raise":
                 self.side.append(o)
